@@ -537,6 +537,26 @@ def run(ctx):
     for e in mk:
         guarded(ctx, 'C06.L1', sj, e, lambda a: mentions_field(a, 'BuildConfig::disable_jobserver_client'), False,
                 'MAKEFLAGS is consulted only when the client is not disabled', construct='jobserver-client:created-although-disabled')
+    # every build that NinjaMain starts - the main one and the manifest regeneration - runs with the jobserver client
+    # (when there is one): on every path from the construction of a Builder to its Build() the client is asked for
+    # (SetupJobserverClient) and what came back is handed to that Builder
+    nb = 0
+    for f2 in prog.functions.values():
+        if f2.cls != 'NinjaMain':
+            continue
+        for be in f2.calls('Builder::Build'):
+            nb += 1
+            asks = [x for x in f2.calls('NinjaMain::SetupJobserverClient')]
+            sets = [x for x in f2.calls('Builder::SetJobserverClient')]
+            r = f2.find_path(None, lambda x: x is be, from_succ=f2.entry, is_blocker=lambda x: x in asks)
+            ctx.check('C06.L1', r is None and bool(sets), f2.name, 'jobserver:build-without-client', f2.where(be),
+                      '%s asks for the jobserver client before it calls Builder::Build and hands it to the builder' % f2.name,
+                      witness=None if r is None else {'blocks': r[0]})
+            for x in sets:
+                os_ = [dstr(o) for a in x.get('args') or [] for v_ in walk(a) if v_.get('k') == 'var' for o in origins(f2, v_)]
+                ctx.check('C06.L1', any('SetupJobserverClient' in o for o in os_), f2.name, 'jobserver:foreign-client', f2.where(x),
+                          'the client handed to the builder is the one SetupJobserverClient returned: %s' % os_[:2])
+    ctx.check('C06.L1', nb >= 2, 'NinjaMain', 'jobserver:build-sites', 'src/ninja.cc', '%d Builder::Build call sites in NinjaMain (main build, manifest regeneration)' % nb)
     check_midbuild_targets_scheduled(ctx, 'C06.L1', prog)
     # a console command that has ended is noticed: SIGCHLD signals coalesce (one pending signal may stand for several
     # children), so after a SIGCHLD *every* running console subprocess is polled with waitpid(WNOHANG) - nothing but
@@ -572,7 +592,7 @@ def run(ctx):
                                     init_facts=frozenset((k, pol) for k, pol, atom in wc_.edge_facts(b, i, all=True))) is None
     ctx.check('C06.L1', okq, wc_.name, 'wait:blocks-with-queued-completion', wc_.loc,
               'with a finished command already queued the runner does not call DoWork() (which may block forever)')
-    ctx.floor('C06.L1', 11)
+    ctx.floor('C06.L1', 16)
 
     # ---- CF1: a slot cannot be copied or forged -------------------------------------------------
     R('C06.CF1', 'CF', 'Jobserver::Slot is move-only and cannot be constructed from an integer '
